@@ -37,12 +37,14 @@ def run(repo, chk):
     R.run('SIBLING', pf_common.sibling_dispatch, repo, chk, 'SIBLING')
     R.run('PAIR', pf_common.pair_filters, repo, chk, 'PAIR')
     refcheck.run_all(R, repo, chk, 'RECUR', 'pagedec_ref.py', WHAT)
+    refcheck.run_all(R, repo, chk, 'RECUR', 'driver_ref.py', {'pp_init': 'every stage object is created once per parser from the configuration', 'comp_call': 'a page is loaded afresh for every call; nothing is kept between calls'}, only=('pp_init', 'filter_confident_lines', 'layout_parser_factory', 'line_cropper_factory', 'ocr_factory', 'pageocr_init', 'comp_call', 'comp_init'))
+    refcheck.run_all(R, repo, chk, 'RECUR', 'nets_ref.py', {}, only=('get_maps_with_optimal_resolution', 'pn_get_maps', 'pn_init'))
     chk.expect('RESET', 9)
     chk.expect('RNG', 2)
     chk.expect('GLOBALS', 2)
     chk.expect('SIBLING', 4)
     chk.expect('PAIR', 3)
-    chk.expect('RECUR', 5)
+    chk.expect('RECUR', 16)
 
 
 def reset(repo, chk):
